@@ -66,6 +66,10 @@ class World:
         self.stack = []  # context managers entered
         self.error = None
         self.fitted = False
+        # provenance used by the violation signatures (must be part of the abstract state, otherwise two
+        # histories with different root causes would be merged and only one cause reported)
+        self.last_fit_overwrite = None
+        self.overwriting_fit_after_checkpoint = False
 
     # --- actions -------------------------------------------------------
     def do(self, act):
@@ -82,6 +86,9 @@ class World:
                 kw = {"checkpoint_path": self.path} if how == "path" else {}
                 self.a.fit(s, n_epochs=1, batch_size=48, overwrite=overwrite, **kw)
                 self.fitted = True
+                self.last_fit_overwrite = overwrite
+                if overwrite:
+                    self.overwriting_fit_after_checkpoint = True
             elif kind == "sample":
                 sampler, how = act[1], act[2]
                 kw = {"checkpoint_path": self.path} if how == "path" else {}
@@ -89,6 +96,7 @@ class World:
                 if sampler == "smc":
                     self.a.sample_posterior(n_samples=4, sampler="smc", n_steps=1, adaptive=False,
                                             sampler_kwargs={"n_steps": 1}, preconditioning="none", **kw)
+                    self.overwriting_fit_after_checkpoint = False
                 else:
                     self.a.sample_posterior(n_samples=4, sampler="importance", **kw)
             elif kind == "enter":
@@ -157,13 +165,31 @@ class World:
         dv = None if d is None else (d.get("save_config"), d.get("saved_config"), d.get("saved_flow"))
         primed = (hasattr(self.a, "_resume_from_default"), getattr(self.a, "_resume_sampler_type", None))
         return (o["config"], o["flow"], o["file_eq_mem"], o["ckpt"], o["ckpt_file"], o["ckpt_mem"], len(self.stack), dv,
-                primed, self.fitted, getattr(self.a, "_last_sampler_type", None), self.error[0] if self.error else None)
+                primed, self.fitted, getattr(self.a, "_last_sampler_type", None), self.error[0] if self.error else None,
+                self.last_fit_overwrite, self.overwriting_fit_after_checkpoint)
 
 
 SAMPLER_CLASS = {"smc": "MiniPCNSMC", "minipcn_smc": "MiniPCNSMC", "emcee_smc": "EmceeSMC", "importance": "ImportanceSampler"}
 
 
-def invariant(w):
+def cause(hist, o):
+    """Which part of the history explains a file flow that does not reproduce the checkpoint's log q
+    (so that different root causes get different signatures)."""
+    hist = [tuple(a) for a in hist]
+    ck = max((i for i, a in enumerate(hist) if (a[0] == "sample" and a[1] == "smc") or a[0] == "resume-sample"), default=None)
+    if ck is None:
+        return "no-checkpointing-sample-in-history"
+    fits_before = [a for a in hist[:ck] if a[0] == "fit"]
+    fits_after = [a for a in hist[ck + 1:] if a[0] == "fit"]
+    if o["ckpt_mem"] and not o["file_eq_mem"]:
+        last = fits_before[-1] if fits_before else None
+        return "stale-file-flow/last-fit-before-checkpoint:overwrite=" + (str(last[2]) if last else "none")
+    if o["file_eq_mem"] and not o["ckpt_mem"]:
+        return "file-flow-replaced-after-checkpoint/by-fit:overwrite=" + ("True" if any(a[2] for a in fits_after) else "False" if fits_after else "none")
+    return "other"
+
+
+def invariant(w, hist=()):
     out = []
     o = w.observe()
     if o["ckpt"] is None:
@@ -172,7 +198,7 @@ def invariant(w):
         out.append((f"C14/checkpoint-without-usable-flow/{o['flow']}", o))
     elif o["ckpt_file"] is False:
         rel = f"file{'==' if o['file_eq_mem'] else '!='}memory,checkpoint{'==' if o['ckpt_mem'] else '!='}memory"
-        out.append((f"C14/file-flow-does-not-reproduce-checkpoint-logq/{rel}", o))
+        out.append((f"C14/file-flow-does-not-reproduce-checkpoint-logq/{rel}/{cause(hist, o)}", o))
     if o["config"] is None:
         out.append(("C14/checkpoint-without-config", o))
     else:
@@ -227,7 +253,7 @@ def run_bfs(arg):
             if w.error is not None:
                 r.violation(f"C14/operation-raises/{w.error[3][0]}/{w.error[0]}/{w.error[1]}", w.error, case)
                 return
-            v, o = invariant(w)
+            v, o = invariant(w, hist)
             for sig, detail in v:
                 r.violation(sig, detail, case)
             r.outcomes.add(explorer.digest(key))
@@ -300,7 +326,7 @@ def replay(case):
         if w.error is not None:
             r.violation(f"C14/operation-raises/{w.error[3][0]}/{w.error[0]}/{w.error[1]}", w.error, case)
         else:
-            for sig, detail in invariant(w)[0]:
+            for sig, detail in invariant(w, [tuple(a) for a in case["history"]])[0]:
                 r.violation(sig, detail, case)
     finally:
         shutil.rmtree(tmpdir, ignore_errors=True)
